@@ -2076,6 +2076,8 @@ class Client:
                 raise ValueError('Invalid topic.')
             topic_list = [topic.encode('utf-8')]
         elif isinstance(topic, list):
+            if len(topic) == 0:
+                raise ValueError('Empty topic list')
             topic_list = []
             for t in topic:
                 if len(t) == 0 or not isinstance(t, (bytes, str)):
